@@ -304,3 +304,140 @@ def r11f(R):
         fmt == ['{:02d}'] and positions == {0, 1},
         'the number is not formatted to two digits or a digit position is '
         'not compared: patterns match times they do not denote')
+
+
+CLOCK = 'bardolph.lib.clock'
+CLOCK_READS = ('datetime.now', 'datetime.today', 'datetime.utcnow',
+               'time.localtime', 'time.gmtime', 'datetime.datetime.now')
+
+
+def _defs_of(f, name):
+    """(statement, target, index-in-tuple or None) for every binding of the
+    local `name` in f."""
+    out = []
+    for n in walk_own(f.node):
+        if isinstance(n, ast.Assign):
+            for t in n.targets:
+                if isinstance(t, ast.Name) and t.id == name:
+                    out.append((n, None))
+                elif isinstance(t, (ast.Tuple, ast.List)):
+                    for i, e in enumerate(t.elts):
+                        if isinstance(e, ast.Name) and e.id == name:
+                            out.append((n, i))
+        elif isinstance(n, (ast.AugAssign, ast.AnnAssign, ast.NamedExpr)) and \
+                isinstance(n.target, ast.Name) and n.target.id == name:
+            out.append((n, None))
+        elif isinstance(n, (ast.For, ast.comprehension)):
+            if any(isinstance(x, ast.Name) and x.id == name
+                   for x in ast.walk(n.target)):
+                out.append((n, 'iter'))
+    return out
+
+
+def _inline(f, e, depth=0):
+    """Replace a local that has exactly one plain binding by the bound
+    expression (so `h = now.hour` is seen as `now.hour`), but stop at a local
+    bound to a call: that local *is* the single reading."""
+    while isinstance(e, ast.Name) and depth < 6:
+        ds = _defs_of(f, e.id)
+        if len(ds) != 1 or ds[0][1] is not None or not isinstance(ds[0][0], ast.Assign):
+            break
+        v = ds[0][0].value
+        if isinstance(v, ast.Call):
+            break
+        e = v
+        depth += 1
+    return e
+
+
+def _same_reading(A, f, a, b, depth=0):
+    """Do expressions a and b of function f always derive from one and the
+    same reading of the clock?  -> (True, '') | (False, why) | (None, why)"""
+    a, b = _inline(f, a), _inline(f, b)
+    # fields of one object held in a local
+    if isinstance(a, (ast.Attribute, ast.Subscript)) and \
+            isinstance(b, (ast.Attribute, ast.Subscript)):
+        ba, bb = _inline(f, a.value), _inline(f, b.value)
+        if isinstance(ba, ast.Name) and isinstance(bb, ast.Name):
+            if ba.id == bb.id:
+                return True, ''
+            return False, '%s and %s are taken from two objects (%s, %s)' % (
+                norm(a), norm(b), ba.id, bb.id)
+        if isinstance(ba, ast.Call) or isinstance(bb, ast.Call):
+            return False, '%s and %s come from two separate readings of the ' \
+                'clock' % (norm(a), norm(b))
+        return None, 'cannot relate %s and %s' % (norm(a), norm(b))
+    if isinstance(a, ast.Name) and isinstance(b, ast.Name):
+        da, db = _defs_of(f, a.id), _defs_of(f, b.id)
+        if not da or not db:
+            return None, '%s / %s are not locals' % (a.id, b.id)
+        if [id(s) for s, _ in da] != [id(s) for s, _ in db]:
+            return False, '%s and %s are not assigned by the same statements' \
+                % (a.id, b.id)
+        for (s, i), (_, j) in zip(da, db):
+            if i is None or j is None or i == 'iter' or j == 'iter' \
+                    or not isinstance(s, ast.Assign):
+                return None, 'cannot relate %s and %s in %s' % (a.id, b.id, norm(s))
+            v = s.value
+            if isinstance(v, (ast.Tuple, ast.List)):
+                r = _same_reading(A, f, v.elts[i], v.elts[j], depth + 1)
+            elif isinstance(v, ast.Call):
+                r = _call_pair(A, f, v, i, j, depth)
+            else:
+                r = (None, 'cannot follow %s' % norm(v))
+            if r[0] is not True:
+                return r
+        return True, ''
+    return None, 'cannot relate %s and %s' % (norm(a), norm(b))
+
+
+def _call_pair(A, f, call, i, j, depth):
+    """elements i and j of the tuple returned by `call`."""
+    if depth > 4:
+        return None, 'too deep'
+    callees = A.callees(f, call)
+    if not callees:
+        return None, 'callee of %s unresolved' % norm(call)
+    for g in callees:
+        rets = [n for n in walk_own(g.node) if isinstance(n, ast.Return)]
+        if not rets:
+            return None, '%s returns nothing' % g.short
+        for r in rets:
+            v = _inline(g, r.value) if r.value is not None else None
+            if not isinstance(v, (ast.Tuple, ast.List)) or \
+                    len(v.elts) <= max(i, j):
+                return None, 'cannot follow %s in %s' % (norm(r), g.short)
+            res = _same_reading(A, g, v.elts[i], v.elts[j], depth + 1)
+            if res[0] is not True:
+                return res[0], '%s: %s' % (g.short, res[1])
+    return True, ''
+
+
+@rule('R11.g', ('C11',), 'the hour and the minute compared with a pattern '
+      'come from one reading of the clock', floor=1,
+      decides='`time at` fires only in a minute the pattern matches: an hour '
+              'read at 8:59:59.9 is never combined with a minute read at '
+              '9:00:00.0 (which would make `8:00` fire at nine)')
+def r11g(R):
+    A = R.A
+    n = 0
+    for f in A.repo.all_functions(CLOCK):
+        for c in A.calls_in(f):
+            if not any(x.endswith('TimePattern.match') for x in A.callee_names(f, c)) \
+                    and not (isinstance(c.func, ast.Attribute) and c.func.attr == 'match'
+                             and len(c.args) == 2 and not A.callee_names(f, c)):
+                continue
+            if len(c.args) != 2:
+                continue
+            n += 1
+            ok, why = _same_reading(A, f, c.args[0], c.args[1])
+            if ok is None:
+                raise AnalysisError('R11.g: %s in %s: %s' % (norm(c), f.short, why))
+            R.check(f, c, ok,
+                    'the hour and the minute handed to match() do not come '
+                    'from one reading of the clock (%s): around the turn of an '
+                    'hour the pair denotes a time that never was, and a '
+                    'pattern fires in a minute it does not match' % why,
+                    line=c.lineno)
+    if n == 0:
+        raise AnalysisError('R11.g: no pattern match against the clock found')
